@@ -106,8 +106,8 @@ pub fn gen_int(e: &mut Ent, ctx: &mut ExprCtx, depth: usize) -> (Expr, i64) {
             let (inner, v) = gen_int(e, ctx, depth - 1);
             let inner = match inner {
                 Expr::Bin(..) => Expr::Paren(Box::new(inner)),
-                // `!-x`: the implementation applies `!` first; neither order is documented
-                Expr::Neg(_) | Expr::Not(_) => Expr::Paren(Box::new(inner)),
+                // (`!!x` is not in the grammar; `!-x` is the not of the negation)
+                Expr::Not(_) => Expr::Paren(Box::new(inner)),
                 o => o,
             };
             (Expr::Not(Box::new(inner)), (v == 0) as i64)
@@ -201,9 +201,21 @@ fn leaf(e: &mut Ent, ctx: &mut ExprCtx) -> (Expr, i64) {
             if !ctx.nums.is_empty() && e.chance(1, 2) {
                 let (p, v) = e.pick(&ctx.nums.clone()).clone();
                 (Expr::Neg(Box::new(Expr::Id { path: p, modifier: None })), -v)
+            } else if !ctx.nums.is_empty() && e.chance(1, 4) {
+                // the negated low or high byte of a name
+                let (p, v) = e.pick(&ctx.nums.clone()).clone();
+                let hi = e.chance(1, 2);
+                let b = if hi { (v >> 8) & 255 } else { v & 255 };
+                (Expr::Neg(Box::new(Expr::Id { path: p, modifier: Some(if hi { '>' } else { '<' }) })), -b)
             } else {
                 let v = e.range(0, 70000);
-                (Expr::Neg(Box::new(Expr::num(v))), -v)
+                // (in front of a decimal, hexadecimal or binary literal or a parenthesis)
+                match e.below(6) {
+                    0 => (Expr::Neg(Box::new(Expr::Num { v, radix: 16, zeros: 0 })), -v),
+                    1 => (Expr::Neg(Box::new(Expr::Num { v, radix: 2, zeros: 0 })), -v),
+                    2 => (Expr::Neg(Box::new(Expr::Paren(Box::new(Expr::num(v))))), -v),
+                    _ => (Expr::Neg(Box::new(Expr::num(v))), -v),
+                }
             }
         }
         _ => lit(e),
